@@ -173,6 +173,15 @@ func (sc *serverConn) processData(f *DataFrame) error {
 	// with a stream error of type STREAM_CLOSED.
 	id := uint32(f.StreamId)
 	st, ok := sc.streams[id]
+	if !ok || st.state != stateOpen {
+		// But still enforce their connection-level flow control,
+		// and return any flow control bytes since we're not going
+		// to consume them.
+		if !sc.returnDiscardedData(len(f.Data)) {
+			state.SpdyErrFlowControl.Inc(1)
+			return goAwayFlowError{}
+		}
+	}
 	if !ok {
 		state.SpdyErrInvalidDataStream.Inc(1)
 		return StreamError{id, InvalidStream}
@@ -200,6 +209,10 @@ func (sc *serverConn) processData(f *DataFrame) error {
 		// Note: we just treat that as a stream error here
 		state.SpdyErrBadRequest.Inc(1)
 		st.body.CloseWithError(fmt.Errorf("sender tried to send more than declared Content-Length of %d bytes", st.declBodyBytes))
+		if !sc.returnDiscardedData(len(data)) {
+			state.SpdyErrFlowControl.Inc(1)
+			return goAwayFlowError{}
+		}
 		return StreamError{id, ProtocolError}
 	}
 	if len(data) > 0 {
